@@ -1,4 +1,5 @@
 import PttVerif.Common
+import PttVerif.Gen.Big5
 import Std.Data.HashMap
 /-
 C17 — model of types/big5.go (Big5 <-> UTF-8 through the UAO 2.50 tables).
@@ -254,5 +255,25 @@ def wfB2U (rows : List Row) : Bool := rows.all wfB2URow
 def wfU2BRow (r : Row) : Bool := r.1.length == 2 && decide (0x80 ≤ r.2) && decide (r.2 < 0x10000)
 
 def wfU2B (rows : List Row) : Bool := rows.all wfU2BRow
+
+/-! ### types.config(): which ini key feeds which table path
+
+`config()` is a sequence of `X = setTConfig("KEY", DEFAULT)`; the list of these reads is regenerated from the
+source (`Gen.Big5.configReads`).  `configutil.SetStringConfig` answers the ini value of the viper key when the
+key is set, the default expression otherwise.  Only the string variables are tracked (`env`). -/
+
+abbrev Env := List (String × String)
+
+/-- one assignment of `config()`: the newest binding is in front. -/
+def cfgStep (ini : Env) (env : Env) (r : Gen.Big5.CfgRead) : Env :=
+  if r.setter = "setStringConfig" then
+    (r.var, match ini.lookup r.viperKey with
+            | some v => v
+            | none => (env.lookup r.dflt).getD "") :: env
+  else env
+
+def runConfig (reads : List Gen.Big5.CfgRead) (ini env : Env) : Env := reads.foldl (cfgStep ini) env
+
+def cfgVar (env : Env) (var : String) : String := (env.lookup var).getD ""
 
 end PttVerif.C17
